@@ -6,6 +6,7 @@ import N2V.Model.Proto
 import N2V.Monitors
 import N2V.Model.Db
 import N2V.Model.Load
+import N2V.Model.World
 open N2V
 
 def showRes (r : Res Bytes) : String :=
@@ -330,6 +331,159 @@ def maskLines (toks : List String) : List String :=
 
 end LoadDrv
 
+namespace HistDrv
+open Proto World Work
+
+def opD : P World.Op := do
+  let t ← tok
+  match t with
+  | "W" => do let n ← bytes; let m ← nat; let c ← bytes; pure (.write n m c)
+  | "D" => do let n ← bytes; pure (.delete n)
+  | "I" => do
+    let par ← nat; let k ← optNat; let ad ← nat; let ts ← counted bytes
+    pure (.invoke { par := par, k := k, adopt := ad == 1, targets := ts, manifestName := bytesOfString "build.ninja" })
+  | _ => failure
+
+structure InvObs where
+  result : String
+  trace : List Sched.Ev
+  fs : List (Bytes × Nat × Bytes)
+
+def invObsD : P InvObs := do
+  kw "INV"
+  let r ← tok
+  let res ← match r with
+    | "ok" => do let n ← tok; pure ("ok " ++ n)
+    | "fail" => pure "fail"
+    | "err" => do let m ← tok; pure ("err " ++ m)
+    | "panic" => do let m ← tok; pure ("panic " ++ m)
+    | _ => failure
+  kw "T"; let evs ← counted evD
+  kw "FS"; let fs ← counted (do let n ← bytes; let m ← nat; let c ← bytes; pure (n, m, c))
+  pure ⟨res, evs, fs⟩
+
+def implD : P (List InvObs × List Bytes) := do
+  let first ← invObsD
+  let rec more (fuel : Nat) (acc : List InvObs) : P (List InvObs) :=
+    match fuel with
+    | 0 => pure acc
+    | fuel + 1 => do
+      let t ← peekTok
+      if t == some ";" then do let _ ← tok; let o ← invObsD; more fuel (acc ++ [o]) else pure acc
+  let invs ← more 1000 [first]
+  kw "%%"
+  let rec logs (fuel : Nat) (acc : List Bytes) : P (List Bytes) :=
+    match fuel with
+    | 0 => pure acc
+    | fuel + 1 => do
+      let t ← peekTok
+      if t == some "LOG" then do let _ ← tok; let b ← bytes; logs fuel (acc ++ [b]) else pure acc
+  let ls ← logs 1000 []
+  pure (invs, ls)
+
+def showResult : InvResult → String
+  | .done n => s!"ok {n}"
+  | .failed => "fail"
+  | .err k => "err " ++ hexOfBytes (bytesOfString k)
+  | .panic m => "panic " ++ hexOfBytes (bytesOfString m)
+  | .other s => "other-" ++ s
+
+def showFs (fs : FsM) : String :=
+  let l := World.sortFs fs
+  s!"FS {l.length}" ++ String.join (l.map (fun p => s!" {hexOfBytes p.1} {p.2.mtime} {hexOfBytes p.2.content}"))
+
+def obsChoices (seg : List Sched.Ev) : List (List Nat) × List (Nat × Sched.Term) :=
+  (permsOf seg, seg.filterMap (fun e => match e with | .finish id t => some (id, t) | _ => none))
+
+structure Acc where
+  w : World := World.emptyWorld
+  out : List String := []
+  obs : List InvObs := []
+  logs : List Bytes := []
+  prevInv : Option (InvArgs × Bool) := none     -- previous op was an invocation (args, impl said ok)
+  cleanEq : Bool := true
+  noopAfterSuccess : Bool := true
+  logAgrees : Bool := true
+  regenFirst : Bool := true
+  reloadIffRan : Bool := true
+  restatRunsNothing : Bool := true
+  adoptSeen : Bool := false
+  nInv : Nat := 0
+
+def stepOp (acc : Acc) (op : World.Op) : Acc :=
+  match op with
+  | .invoke a =>
+    match acc.obs with
+    | [] => { acc with out := acc.out ++ ["INV missing-observation"] }
+    | o :: restObs =>
+      let segs := segments o.trace
+      let c1 := obsChoices (segs.headD [])
+      let c2 := obsChoices ((segs.drop 1).headD [])
+      let before := acc.w
+      let (w', res, tr) := Work.invoke acc.w a c1 c2
+      let line := "INV " ++ showResult res ++ " " ++ showTrace tr ++ " " ++ showFs w'.fs
+      let implOk := o.result.startsWith "ok"
+      -- C02: contents of the closure's outputs equal those of a from-scratch build
+      let cleanOk :=
+        if !implOk || a.adopt || acc.adoptSeen then true else
+        match World.cleanOutputs { before with fs := (o.fs.map (fun t => (t.1, (⟨t.2.1, t.2.2⟩ : FileInfo)))) } a with
+        | none => true
+        | some want => want.all (fun p =>
+            ((o.fs.find? (fun t => t.1 == p.1)).map (fun t => t.2.2)) == some p.2)
+      -- C03: straight after a successful build of the same targets nothing runs
+      let noop := match acc.prevInv with
+        | some (pa, true) =>
+          if pa.targets == a.targets && !pa.adopt && World.allDeclaredPresent before a then
+            o.result == "ok 0" && !o.trace.any (fun e => match e with | .start _ => true | _ => false)
+          else true
+        | _ => true
+      -- `-t restat` starts no command
+      let restat := !a.adopt || !o.trace.any (fun e => match e with | .start _ => true | _ => false)
+      -- C09/C08/C02: the log the implementation left is the abstract one
+      let logOk := match acc.logs with
+        | l :: _ => World.logAgrees l w'.log
+        | [] => false
+      -- C17
+      let seg1Starts := (segs.headD []).filterMap (fun e => match e with | .start b => some b | _ => none)
+      let seg1Success := (segs.headD []).any (fun e => match e with | .finish _ .success => true | _ => false)
+      let cone := match loadEnv before a.manifestName with
+        | .ok (_, e0) =>
+          let sg := schedGraph e0.g
+          some (Mon.closure (Mon.allProducers sg) (sg.nBuilds * sg.nBuilds + sg.nBuilds + 1) ((sg.producer 0).toList) [])
+        | .error _ => none
+      let reloaded := segs.length ≥ 2
+      let regen := match cone with
+        | some cone => !reloaded || seg1Starts.all cone.contains
+        | none => true
+      let seg1Bad := (segs.headD []).any (fun e => match e with
+        | .finish _ .failure => true | .finish _ .interrupted => true | _ => false)
+      -- a command of the manifest's own cone succeeded in the first Work (phase 1)
+      let coneSuccess := match cone with
+        | some cone => (segs.headD []).any (fun e => match e with | .finish b .success => cone.contains b | _ => false)
+        | none => false
+      -- reload only after a manifest phase that ran something and did not fail; and then always
+      -- (an error inside the phase leaves it open)
+      let reloadOk := (!reloaded || (seg1Success && !seg1Bad)) &&
+                      (!(coneSuccess && !seg1Bad && !o.result.startsWith "err") || reloaded)
+      { acc with w := w', out := acc.out ++ [line], obs := restObs, logs := acc.logs.drop 1,
+                 prevInv := some (a, implOk), nInv := acc.nInv + 1, adoptSeen := acc.adoptSeen || a.adopt,
+                 cleanEq := acc.cleanEq && cleanOk, noopAfterSuccess := acc.noopAfterSuccess && noop,
+                 logAgrees := acc.logAgrees && logOk, regenFirst := acc.regenFirst && regen,
+                 reloadIffRan := acc.reloadIffRan && reloadOk,
+                 restatRunsNothing := acc.restatRunsNothing && restat }
+  | op => { acc with w := World.applyEdit acc.w op, prevInv := none }
+
+end HistDrv
+
+def handleHist (case impl : List String) : String :=
+  match (Proto.counted HistDrv.opD).run case, HistDrv.implD.run impl with
+  | some (ops, []), some ((invs, logs), []) =>
+    let acc := ops.foldl HistDrv.stepOp { obs := invs, logs := logs }
+    " ; ".intercalate acc.out ++ mons [("cleanEq", acc.cleanEq), ("noopAfterSuccess", acc.noopAfterSuccess),
+      ("logAgrees", acc.logAgrees), ("regenFirst", acc.regenFirst), ("reloadIffRan", acc.reloadIffRan),
+      ("restatRunsNothing", acc.restatRunsNothing)]
+  | _, _ => "bad-case"
+
 /-- `case` tokens and the implementation's observed tokens -> model line ++ monitor verdicts. -/
 def handle (case impl : List String) : String :=
   match case with
@@ -400,6 +554,7 @@ def handle (case impl : List String) : String :=
       "ok " ++ hexOfBytes (Render.progressBar ⟨w, r, q, ru, d, f⟩ n) ++ mons mon
     | _ => "bad-case"
   | "sched" :: rest => handleSched rest impl
+  | "hist" :: rest => handleHist rest impl
   | "load" :: rest =>
     match (LoadDrv.filesD.run rest) with
     | some ((main, files), []) =>
